@@ -819,6 +819,12 @@ package erpc
 // has a reply recorded or a non-OK status.
 //@ lockinv (*callCmd).mu protects stat inputMeta #completions :: (self.#completions == 0 || self.#completions == 1) && (self.#completions == 1 <==> (self.inputMeta != nil || !statOK(self.stat))) && self.sess != nil && self.output != nil
 
+//@ func (*callCmd).hasReply
+//@   property C14
+//@   requires[caller-holds-call-lock] @C14 held(addr(c.mu))
+//@   modifies nothing
+//@   ensures result == (c.inputMeta != nil)
+
 //@ func (*callCmd).done
 //@   property C02
 //@   flags libframe
@@ -834,6 +840,7 @@ package erpc
 //@ func (*callCmd).cancel
 //@   property C02
 //@   flags libframe
+//@   requires[caller-holds-call-lock] @C14 held(addr(c.mu))
 //@   requires[not-yet-completed] c.#completions == 0
 //@   requires c.sess != nil && c.output != nil && sentinelsIntact()
 //@   modifies c.#completions, c.stat, waitgroups, c.doneChan.#chanClosed, c.callCmdChan.#chanSent, c.sess.callCmdMap.#gkeys
@@ -1097,3 +1104,8 @@ package erpc
 //@ guarded (*session).status by atomic @C14
 //@ guarded (*session).seq by atomic @C14
 //@ guarded (*session).didCloseNotify by atomic @C14
+// the call command's completion state: written under the command's mutex by the
+// launcher, the reader and the disconnect path. The user-facing accessors read
+// it after the done channel closed (happens-after close): documented exceptions.
+//@ guarded (*callCmd).stat by mu @C14 except (*callCmd).StatusOK (*callCmd).Status (*callCmd).Reply
+//@ guarded (*callCmd).inputMeta by mu @C14 except (*callCmd).InputMeta (*callCmd).RealIP
